@@ -104,10 +104,22 @@ class InlineDefinedFuns:
         if res == node:
             return []
         fname = node.data if node.is_leaf() else node[0].data
-        if any(n.is_leaf() and n.data == fname for n in nodes.dfs(res)):
-            # the function is recursive: what is inlined contains the
-            # function again, inlining could be repeated for ever
-            return []
+        # the function is recursive, directly or through other definitions:
+        # what is inlined contains (or leads back to) the function again,
+        # inlining could be repeated for ever
+        seen = set()
+        todo = [res]
+        while todo:
+            for n in nodes.dfs(todo.pop()):
+                if n.is_leaf() and n.data == fname:
+                    return []
+                if is_defined_fun(n):
+                    name = n.data if n.is_leaf() else n[0].data
+                    if name not in seen:
+                        seen.add(name)
+                        body = get_defined_fun(n)
+                        if body is not n:
+                            todo.append(body)
         if not node.is_leaf():
             # an argument must not be captured by a binder of the body
             bound = set()
